@@ -200,6 +200,20 @@ class Gate:
         k = self.ret_kind(e.name)
         if k == "()":
             return True
+        if k in ("option", "result"):
+            # what the path's decisions leave of the discriminant of the returned value
+            poss = {0, 1}
+            d = ("discr", e.ret)
+            for c in p.conds:
+                x, v = c[0], c[1]
+                if x == d:
+                    poss &= {v} if isinstance(v, int) else ({0, 1} - set(v[1]))
+                elif x[0] == "bin" and x[1] in ("Eq", "Ne") and d in (x[2], x[3]) and isinstance(v, int):
+                    o = x[3] if x[2] == d else x[2]
+                    if o[0] == "int":
+                        poss = poss & {o[1]} if (x[1] == "Eq") == bool(v) else poss - {o[1]}
+            if poss == ({1} if k == "option" else {0}):
+                return True
         for c in p.conds:
             if not sym.contains(c[0], lambda x: x == e.ret):
                 continue
